@@ -391,14 +391,33 @@ func rulePair(w *World, r *Report, pkg *ssa.Package, tag string) {
 	}
 	wp := w.FuncOpt(pkg, "writePointer")
 	for i, l := range lits {
-		fromWP := func(v ssa.Value) bool {
+		var fromWPd func(v ssa.Value, depth int) bool
+		fromWPd = func(v ssa.Value, depth int) bool {
 			if ex, ok := strip(v).(*ssa.Extract); ok && ex.Index == 0 {
 				if c, ok := ex.Tuple.(*ssa.Call); ok && staticCallee(c) == wp && wp != nil {
 					return true
 				}
+				// a helper of the package that hands on writePointer's output (benign F-r4): each of its
+				// returns gives writePointer's result, or a constant together with an error
+				if c, ok := ex.Tuple.(*ssa.Call); ok && depth < 2 {
+					if g := staticCallee(c); g != nil && g.Blocks != nil && fnPkg(g) == pkg.Pkg && g != wp && lastIsError(g.Signature) {
+						rets := returnsOf(g)
+						all := len(rets) > 0
+						for _, ret := range rets {
+							if _, isC := strip(ret.Results[0]).(*ssa.Const); isC && !isNilConst(ret.Results[len(ret.Results)-1]) {
+								continue
+							}
+							if !fromWPd(ret.Results[0], depth+1) {
+								all = false
+							}
+						}
+						return all
+					}
+				}
 			}
 			return false
 		}
+		fromWP := func(v ssa.Value) bool { return fromWPd(v, 0) }
 		okSrc := fromWP(l.fields["Path"])
 		if p, isParam := strip(l.fields["Path"]).(*ssa.Parameter); isParam && !okSrc {
 			// literal lives in a helper: every caller must pass writePointer's output
@@ -556,9 +575,13 @@ func ruleOpSubset(w *World, r *Report, pkg *ssa.Package) {
 		if !isNilErrReturn(ret) {
 			continue
 		}
-		if sl, ok := ret.Results[1].(*ssa.Slice); ok && sl.Low != nil {
-			if k, ok := constInt(sl.Low); ok && k == 2 {
-				testCommit = ret
+		// the rest of the op list: the result that re-slices the function's first parameter (whatever
+		// its position among the results)
+		for _, res := range ret.Results {
+			if sl, ok := res.(*ssa.Slice); ok && sl.Low != nil && len(fn.Params) > 0 && types.Identical(sl.Type(), fn.Params[0].Type()) {
+				if k, ok := constInt(sl.Low); ok && k == 2 {
+					testCommit = ret
+				}
 			}
 		}
 	}
@@ -1173,7 +1196,9 @@ func ruleMergeHunkDiff(w *World, r *Report, pkg *ssa.Package) {
 				fmt.Sprintf("a hunk built under merge strategy has Merge flag=%v, non-empty Remove=%v: it is applied strictly (RenderMerge refuses it, Patch demands the old value)", hasMerge, hasRemove))
 		})
 	}
-	if n < 6 {
+	// the floor notices a rule that stopped matching; it does not forbid consolidating the literals into
+	// a helper (benign D-r2 leaves 4)
+	if n < 2 {
 		r.Bad(rule, "v2:instance-floor", "-", fmt.Sprintf("only %d merge-strategy hunk literals found in the diff functions", n))
 	}
 }
